@@ -22,6 +22,7 @@ def check(index, ctx):
     ctx.rule("R3", "the configured preference vector / the input is what every call sees: nothing on a path of UPGrad/DualProj writes in place into a value that may share memory "
              "with a constructor argument or with the matrix (so the second call solves the same QP as the first)")
     names = _agg.classes_named(index, ["UPGrad", "DualProj"], ctx, "R1")
+    W_UP = _agg.weighting_of(index, "UPGrad")
     n = 0
     for name in names:
         cls = by_class[name][0].cls
@@ -127,8 +128,8 @@ def check(index, ctx):
                 if name == "UPGrad":
                     Uax = qp["axes"].get("h")
                     red = [e for e in ev if e["kind"] == "sop" and e["sop"] == "reduce" and e["fn"] == "sum" and e["in_axes"] == ["R", "R"] and e["over_pos"] == [0]
-                           and e["function"].endswith("_UPGradWrapper.forward")]
-                    other_red = [e for e in ev if e["kind"] == "sop" and e["sop"] == "reduce" and e["function"].endswith("_UPGradWrapper.forward") and "solve_qp" in e.get("in_origin", []) and e not in red]
+                           and _agg.in_weighting(e, W_UP)]
+                    other_red = [e for e in ev if e["kind"] == "sop" and e["sop"] == "reduce" and _agg.in_weighting(e, W_UP) and "solve_qp" in e.get("in_origin", []) and e not in red]
                     if len(red) == 1 and not other_red:
                         ctx.ok("R2", pk + " sum(dim=0)", "sum over dim 0 of W", cls.loc())
                     elif other_red or len(red) > 1:
